@@ -167,6 +167,17 @@ func (w *World) registerHTTPIntrinsics() {
 		rawQuery := f("RawQuery").(*Term)
 		force := f("ForceQuery").(*Term)
 		e.requireStub(mkEq(opaque, mkStr("")), "url.URL.Opaque empty")
+		if pv, ok := path.strVal(); ok {
+			if rv, ok := rawPath.strVal(); ok {
+				// concrete path: the standard library's own escaping decides
+				esc := (&url.URL{Path: pv, RawPath: rv}).EscapedPath()
+				if esc == "" {
+					esc = "/"
+				}
+				withQ := mkOr(force, mkNot(mkEq(rawQuery, mkStr(""))))
+				return mkConcat(mkStr(esc), mkIte(withQ, mkConcat(mkStr("?"), rawQuery), mkStr("")))
+			}
+		}
 		e.requireStub(mkEq(rawPath, mkStr("")), "url.URL.RawPath empty")
 		safe := reStar(reUnion(reRange('a', 'z'), reRange('A', 'Z'), reRange('0', '9'),
 			reLit("/"), reLit("-"), reLit("."), reLit("_"), reLit("~"), reLit("$"), reLit("&"),
